@@ -820,7 +820,7 @@ class Sign(Engine):
         tx = copy.deepcopy(a['tx'])
         # distinct outpoints (so that a re-ordered input can be located again)
         for i, x in enumerate(tx['vin']):
-            x['n'] = (x['n'] & 0xffffff00) | i
+            x['n'] = (x['n'] & 0xffff0000) | i
         idx = a['input'] % len(tx['vin'])
         self.funding = None
         if redeem is None and a['edit_seed'][3] % 3 == 0:
@@ -895,7 +895,7 @@ class Sign(Engine):
         out_sel = range(nvout) if nvout <= 8 else sorted({0, 1, 255, 256, 257, idx - 1, idx, idx + 1, nvout - 1} & set(range(nvout)))
         for i in in_sel:
             E('in%d.prevout.hash' % i, lambda t, i=i: t['vin'][i].__setitem__('hash', '%064x' % (int(t['vin'][i]['hash'], 16) ^ 1)))
-            E('in%d.prevout.n' % i, lambda t, i=i: t['vin'][i].__setitem__('n', t['vin'][i]['n'] ^ 0x100))
+            E('in%d.prevout.n' % i, lambda t, i=i: t['vin'][i].__setitem__('n', t['vin'][i]['n'] ^ 0x8000))
             E('in%d.sequence' % i, lambda t, i=i: t['vin'][i].__setitem__('seq', t['vin'][i]['seq'] ^ 1))
             if i != idx:
                 E('in%d.scriptSig' % i, lambda t, i=i: t['vin'][i].__setitem__('script', t['vin'][i]['script'] + '51'))
